@@ -142,6 +142,11 @@ class Prog:
         return self._replay_sat(label, hyps, gen, ref, model, gen_eval, ref_eval, what)
 
     def _replay_sat(self, label, hyps, gen, ref, model, gen_eval, ref_eval, what):
+        if len(self.violations) >= 12:
+            # this program already has a dozen reproduced violations: further replays (each may start a jax subprocess or
+            # load a shared library) only risk the task's wall limit, which would turn the whole program inconclusive
+            self.unreproduced.append({"key": self.key(label), "what": what, "tried": [{"why": "not replayed: 12 violations of this program already reproduced"}]})
+            return "unreproduced"
         tried = []
         models = []
         rm = None if os.environ.get("VT_NO_ROBUST") else self._robust_model(hyps, gen, ref)
